@@ -16,12 +16,62 @@ ASSUMPTIONS = ['allowed instances: valid_instances where declared, numbered copi
 
 
 def plan(tier, seed):
-    return [{'year': y} for y in (2021, 2022, 2023)]
+    return [{'year': y} for y in (2021, 2022, 2023)] + [{'kind': 'callsites', 'year': y, 'n': 1 if tier == 'quick' else 6} for y in (2021, 2022, 2023)]
+
+
+def run_callsites(spec, tier, seed):
+    """The look-ups the line definitions really make: purpose-built returns of all five statuses are solved with EVERY line of every
+    participating form asked for (optional lines included), with Form.threshold wrapped; a look-up that raises is reported with its call site."""
+    from hv import hx, scen, drive, realwork
+    FM = hx.form
+    year = spec['year']
+    res = Result()
+    failed = []
+    seen = set()
+    orig = FM.Form.threshold
+
+    def threshold(self, name, *a, **kw):
+        try:
+            v = orig(self, name, *a, **kw)
+        except BaseException as e:  # noqa
+            failed.append((self.name(), name, [getattr(x, 'name', x) for x in a], f'{type(e).__name__}: {str(e)[:160]}'))
+            raise
+        seen.add((self.name().split(':')[0], name, tuple(getattr(x, 'name', str(x)) for x in a)))
+        return v
+    FM.Form.threshold = threshold
+    try:
+        for fam, p in scen.directed_personas(year, seed, spec['n']):
+            out = scen.solve_persona(p)
+            res.evaluations += 1
+            if out.exc is not None:
+                continue
+            forms = list(out.solver.forms)
+            if any(getattr(fo_, '_thresholds', None) for fo_ in out.solver.forms.values()):
+                res.count('returns_with_forms_declaring_amount_tables')
+            names = [fld.name() for f in forms for fld in out.solver.forms[f].fields()]
+            del failed[:]
+            classes = hx.catalogue(year)
+            o2 = drive.run_solver(classes, drive.config_from(dict(p.answers)), forms, field_names=names, answer=lambda m, nb: p.answer(m), sort_key=drive.plain_name_key)
+            res.evaluations += 1
+            res.count('returns_solved_with_every_line_asked_for')
+            for form, name, args, err in failed:
+                res.violation(f'C17|{year}|{form.split(":")[0]}|lookup-fails-at-call-site|{name}', f'{year} {fam} {p.key} ({p.status}): a line of the return looks up {name!r}{args} on {form} and the look-up fails: {err}',
+                              realwork.replay_of(p, 'all-lines', spec))
+    finally:
+        FM.Form.threshold = orig
+    for k in seen:
+        res.distinct.add(f'{year}|callsite|{k[0]}|{k[1]}|{k[2]}')
+    res.count('distinct_lookups_made_by_lines', len(seen))
+    if not seen and res.counters.get('returns_with_forms_declaring_amount_tables'):
+        res.inconclusive.append(f'{year}: forms declare amount tables but no line made a look-up')
+    return res
 
 
 def run_shard(spec, tier, seed):
     from hv import hx, cli
     FM = hx.form
+    if spec.get('kind') == 'callsites':
+        return run_callsites(spec, tier, seed)
     year = spec['year']
     res = Result()
     cat = hx.catalogue(year)
@@ -163,7 +213,7 @@ def run_shard(spec, tier, seed):
         for l in rows:
             nm = l.split(' | ')[0].strip()
             c = [x for x in cat if x.form_name == nm]
-            if c and (c[0].jurisdiction.name not in l or c[0].description not in l):
+            if c and (c[0].jurisdiction.name not in l or str(c[0].description) not in l):
                 V(nm, 'list-forms-row-content', f'row {l!r} lacks jurisdiction/description')
     return res
 
